@@ -6,6 +6,7 @@
 
 #include "harness.h"
 #include "ledger.h"
+#include "leak.h"
 
 #include <map>
 #include <new>
@@ -83,6 +84,9 @@ Verdict faultOrchestrate(const Program & p, Exec exec, int maxExecutions = 120)
 			Verdict one;
 			exec(p, plan, one);
 			++executions;
+			if(getenv("VERIF_DEBUG_LEAK") && one.ok && confirmLeak()) {
+				fprintf(stderr, "DEBUG leak in an execution judged ok: target op %d k %ld fired=%d kind=%d\n%s\n", t, k, plan.fired, plan.firedKind, toText(p).c_str());
+			}
 			if(plan.firedAtKGreater1OnNonEmpty) nontrivial = true;
 			if(plan.firedKind == 6) alloc = true; else if(plan.firedKind) user = true;
 			if(! one.ok) {
